@@ -75,6 +75,32 @@ def handleF : List Sexp → Sexp
             | _ => none))
         | .error e => app "err" [.atom e.name]
       .list [.atom "check", chk, .atom "kinds", .list ((kinds.2.drop 3).map Kind.enc), .atom "eval", ev]
+  | [.atom "scopes", .list (.atom "lets" :: ls), .list (.atom "decls" :: ds), .list (.atom "fors" :: fs)] =>
+    match optAll (ls.map fun | .list [.atom "let", .str n, e] => (TE.dec e : Option (TE Float)).map (fun e => (n, e)) | _ => none),
+          optAll (ds.map (TDecl.dec (α := Float))), optAll (fs.map (TFor.dec (α := Float))) with
+    | some lets, some decls, some fors =>
+      -- fragments of a compiled name, canonical: integers (and integral floats below 2^63) as text, other floats by bits
+      let frag (p : Prim Float) : Sexp := match p with
+        | .integer i => app "i" [.atom (toString i)]
+        | .pint n => app "i" [.atom (toString n)]
+        | .number x => if x.isFinite && x == x.floor && x.abs < 9223372036854775808.0 then app "i" [.atom (toString (Arith.toI64 x))] else app "f" [encNum x]
+        | .boolean b => app "s" [.str (if b then "T" else "F")]
+        | .string t => app "s" [.str t]
+        | .other _ => .atom "?"
+      let tyEnc (t : VarType Float) : Sexp := match t with
+        | .bool => app "bool" []
+        | .real a b => app "real" [encNum a, encNum b]
+        | .nnreal a b => app "nnreal" [encNum a, encNum b]
+        | .int a b => app "int" [.atom (toString a), .atom (toString b)]
+      let chk : Sexp := match typeCheckProgram lets decls fors with
+        | .ok _ => app "ok" [] | .error e => app "err" [.atom e.name]
+      let ev : Sexp := match runProgram (fun p => toString (frag p)) lets decls fors with
+        | .ok out =>
+          app "ok" [.list (.atom "domain" :: out.domain.map (fun (d : String × List (Prim Float) × VarType Float) => .list [.str d.1, .list (d.2.1.map frag), tyEnc d.2.2])),
+                    .list (.atom "names" :: out.names.map (fun (leaves : List (List (Prim Float))) => .list (leaves.map (fun fr => .list (fr.map frag)))))]
+        | .error e => app "err" [.atom e.name]
+      .list [.atom "check", chk, .atom "eval", ev]
+    | _, _, _ => app "err" [.atom "decode"]
   | [.atom "expr", e] =>
     match (PExp.dec e : Option (PExp Float)) with
     | some e => .list [.atom "tc", boolAtom e.typeCheck, .atom "type", e.typeOf.enc, .atom "eval", encEval e.eval]
